@@ -104,6 +104,8 @@ struct World<L: Language> {
     /// rule names with a side condition (not re-checked after saturation)
     mk: Box<dyn Fn() -> Vec<Rewrite<L>>>,
     desc: Vec<String>,
+    /// grow-then-collapse worlds: a node limit in this range is exceeded by the first iteration and undercut again by the second
+    limit_hint: Option<(usize, usize)>,
 }
 
 fn world_sym(rng: &mut Rng) -> Option<World<LSym>> {
@@ -172,7 +174,7 @@ fn world_sym(rng: &mut Rng) -> Option<World<LSym>> {
     }
     let rc = rules.clone();
     desc.push(format!("rules {:?}", rules.iter().map(|r| format!("{}: {} => {}", r.0, r.1, r.2)).collect::<Vec<_>>()));
-    Some(World { eg, tracked, rules, mk: Box::new(move || rc.iter().map(|(n, l, r)| Rewrite::new(n, l, r)).collect()), desc })
+    Some(World { eg, tracked, rules, mk: Box::new(move || rc.iter().map(|(n, l, r)| Rewrite::new(n, l, r)).collect()), desc, limit_hint: None })
 }
 
 fn world_arith(rng: &mut Rng) -> Option<World<LArith>> {
@@ -193,7 +195,31 @@ fn world_arith(rng: &mut Rng) -> Option<World<LArith>> {
     for i in eg.ids() {
         tracked.push(eg.mk_identity_applied_id(i));
     }
-    Some(World { eg, tracked, rules, mk: Box::new(move || chosen.iter().map(mk_rewrite::<()>).collect()), desc })
+    Some(World { eg, tracked, rules, mk: Box::new(move || chosen.iter().map(mk_rewrite::<()>).collect()), desc, limit_hint: None })
+}
+
+/// n towers `(add 3 (mul 2 (add N_i 0)))` over distinct numbers; the first iteration of `(add ?x 0) => (mul ?x 1)` adds e-nodes,
+/// the second one (`(mul ?x 1) => 7`) merges all the inner classes, so that the towers collapse by congruence and the node count
+/// falls below where it started: a limit that the first iteration exceeds is undercut again if the loop does not stop in time
+fn world_collapse(rng: &mut Rng) -> Option<World<LArith>> {
+    let n = rng.range(3, 8);
+    let mut eg: EGraph<LArith> = EGraph::default();
+    let mut tracked = vec![];
+    let mut desc = vec![];
+    let levels = rng.range(1, 3);
+    for i in 0..n {
+        let mut t = format!("(add {} 0)", 10 + i);
+        for l in 0..levels {
+            t = if l % 2 == 0 { format!("(mul 2 {t})") } else { format!("(add 3 {t})") };
+        }
+        desc.push(format!("add {t}"));
+        tracked.push(guard(|| eg.add_expr(RecExpr::parse(&t).unwrap())).ok()?);
+    }
+    let start = eg.total_number_of_nodes();
+    let rules: Vec<(String, String, String)> = vec![("grow".into(), "(add ?x 0)".into(), "(mul ?x 1)".into()), ("collapse".into(), "(mul ?x 1)".into(), "7".into())];
+    desc.push(format!("rules {:?} (start: {start} nodes)", rules.iter().map(|r| format!("{}: {} => {}", r.0, r.1, r.2)).collect::<Vec<_>>()));
+    let rc = rules.clone();
+    Some(World { eg, tracked, rules, mk: Box::new(move || rc.iter().map(|(n, l, r)| Rewrite::new(n, l, r)).collect()), desc, limit_hint: Some((start, start + n)) })
 }
 
 fn sentinel<L: Language + 'static>(counter: Rc<Cell<usize>>) -> Rewrite<L> {
@@ -209,7 +235,7 @@ fn judge<L: Language + 'static>(mut w: World<L>, rng: &mut Rng, out: &mut CaseOu
         }};
     }
     // ---- (1) apply_rewrites' return value, step by step
-    let pre_steps = rng.below(3);
+    let pre_steps = if w.limit_hint.is_some() { 0 } else { rng.below(3) };
     for _ in 0..pre_steps {
         if w.eg.total_number_of_nodes() > 80 {
             break;
@@ -239,11 +265,21 @@ fn judge<L: Language + 'static>(mut w: World<L>, rng: &mut Rng, out: &mut CaseOu
     }
     // ---- (2) a run with limits and hooks
     let counter = Rc::new(Cell::new(0usize));
-    let iter_limit = rng.below(7);
-    let node_limit = if rng.chance(1, 3) { rng.range(1, 60) } else { 400 };
-    let fail_at = if rng.chance(1, 4) { Some(rng.below(4)) } else { None };
-    let time_zero = rng.chance(1, 10);
-    let use_runner = rng.chance(2, 3);
+    let mut iter_limit = rng.below(7);
+    let mut node_limit = if rng.chance(1, 3) { rng.range(1, 60) } else { 400 };
+    let mut fail_at = if rng.chance(1, 4) { Some(rng.below(4)) } else { None };
+    let mut time_zero = rng.chance(1, 10);
+    let mut use_runner = rng.chance(2, 3);
+    if let Some((lo, hi)) = w.limit_hint {
+        node_limit = rng.range(lo, hi);
+        iter_limit = rng.range(2, 6);
+        use_runner = true;
+        time_zero = false;
+        if rng.chance(3, 4) {
+            fail_at = None;
+        }
+        out.inc("runs_grow_then_collapse");
+    }
     let mut rws = (w.mk)();
     rws.push(sentinel::<L>(counter.clone()));
     let tracked = w.tracked.clone();
@@ -374,7 +410,12 @@ fn judge<L: Language + 'static>(mut w: World<L>, rng: &mut Rng, out: &mut CaseOu
 
 pub fn run_case(rng: &mut Rng) -> CaseOut {
     let mut out = CaseOut::default();
-    if rng.chance(1, 2) {
+    if rng.chance(1, 8) {
+        match world_collapse(rng) {
+            Some(w) => judge(w, rng, &mut out),
+            None => out.inconclusive = Some("setup panicked (reported by C02/C08)".into()),
+        }
+    } else if rng.chance(1, 2) {
         match world_sym(rng) {
             Some(w) => judge(w, rng, &mut out),
             None => out.inconclusive = Some("setup panicked (reported by C02/C08)".into()),
